@@ -132,6 +132,7 @@ type signCase struct {
 	expectOK bool
 	failKind string // "" | callback_error | invalid_type | unknown_key_id | invalid_type_callback
 	withPass bool   // a passphrase is in the environment although the key is not protected (it protects another format's key)
+	sde      string // SOURCE_DATE_EPOCH in the environment of this packaging ("" = unset)
 }
 
 var errCallback = errors.New("callback signer refused")
@@ -171,6 +172,19 @@ func famSign(tr *Trace, scratch string, seed int64, tier string, repo string) M 
 	add(signCase{fmtName: "deb", method: "debsign", keyKind: "privkey_unprotected.asc", expectOK: true, withPass: true})
 	add(signCase{fmtName: "deb", method: "dpkg-sig", keyKind: "privkey_unprotected.asc", expectOK: true, withPass: true})
 	add(signCase{fmtName: "rpm", keyKind: "privkey_unprotected.gpg", expectOK: true, withPass: true})
+	// a reproducible-build date EARLIER than the signing key's creation (the test key is from 2020): the signature is made
+	// and verifies all the same
+	for _, sde := range []string{"1500000000", "0"} {
+		add(signCase{fmtName: "deb", method: "debsign", keyKind: "privkey_unprotected.asc", expectOK: true, sde: sde})
+		add(signCase{fmtName: "deb", method: "dpkg-sig", keyKind: "privkey_unprotected.asc", expectOK: true, sde: sde})
+		add(signCase{fmtName: "rpm", keyKind: "privkey_unprotected.asc", expectOK: true, sde: sde})
+		add(signCase{fmtName: "apk", keyKind: "rsa_unprotected.priv", pubRSA: "rsa_unprotected.pub", keyName: "origin", maintain: "Jane Doe <jane@example.org>", expectOK: true, sde: sde})
+	}
+	// a signer that fails once and would succeed if asked again: its failure is the packaging's failure
+	for _, f := range []string{"deb", "rpm", "apk"} {
+		add(signCase{fmtName: f, method: map[string]string{"deb": "debsign"}[f], keyKind: "callback-flaky", failKind: "callback_error", keyName: "origin"})
+	}
+	add(signCase{fmtName: "deb", method: "dpkg-sig", keyKind: "callback-flaky", failKind: "callback_error"})
 	// callbacks: the signer is handed the bytes to sign
 	for _, f := range []string{"deb", "rpm", "apk"} {
 		add(signCase{fmtName: f, method: map[string]string{"deb": "debsign"}[f], keyKind: "callback", expectOK: true, keyName: "origin"})
@@ -246,6 +260,9 @@ func famSign(tr *Trace, scratch string, seed int64, tier string, repo string) M 
 		if strings.Contains(sc.keyKind, "unprotected") && !sc.withPass {
 			pass = ""
 		}
+		if sc.sde != "" { // the whole packaging, from parsing on, happens under this reproducible-build date
+			os.Setenv("SOURCE_DATE_EPOCH", sc.sde)
+		}
 		cfg, perr := nfpm.ParseWithEnvMapping(strings.NewReader(yaml), func(k string) string {
 			if k == "NFPM_PASSPHRASE" {
 				return pass
@@ -259,6 +276,7 @@ func famSign(tr *Trace, scratch string, seed int64, tier string, repo string) M 
 		emit := func() {
 			tr.Emit(sc.id, []M{{"ev": "case", "id": sc.id, "fam": "sign"}, ev, {"ev": "endcase"}})
 			os.RemoveAll(pc.Root)
+			os.Unsetenv("SOURCE_DATE_EPOCH")
 		}
 		if perr != nil {
 			ev["err"] = "parse: " + safeStr(perr.Error())
@@ -272,7 +290,7 @@ func famSign(tr *Trace, scratch string, seed int64, tier string, repo string) M 
 			fn := func(r io.Reader) ([]byte, error) {
 				b, _ := io.ReadAll(r)
 				got = append(got, b)
-				if sc.keyKind == "callback-error" {
+				if sc.keyKind == "callback-error" || (sc.keyKind == "callback-flaky" && len(got) == 1) {
 					return nil, errCallback
 				}
 				return []byte("-----BEGIN PGP SIGNATURE-----\n\ncallback-signature\n-----END PGP SIGNATURE-----\n"), nil
@@ -293,7 +311,7 @@ func famSign(tr *Trace, scratch string, seed int64, tier string, repo string) M 
 			var sf *nfpm.ErrSigningFailure
 			ev["err"] = safeStr(strings.ReplaceAll(err.Error(), repo, "$REPO"))
 			ev["is_signing_failure"] = errors.As(err, &sf)
-			if sc.keyKind == "callback-error" {
+			if sc.keyKind == "callback-error" || sc.keyKind == "callback-flaky" {
 				ev["wraps_cause"] = errors.Is(err, errCallback) || (sf != nil && errors.Is(sf.Err, errCallback))
 			} else {
 				ev["wraps_cause"] = sf != nil && sf.Err != nil
